@@ -111,6 +111,20 @@ static inline std::vector<uint8_t> fuzzTrack(Rng &r, int n)
         default: t.push_back(0xFF); break;                                                                              // 0xFF as the (possibly) last byte
         }
     }
+    // "storm" of one stateful meta kind with pairwise distinct payloads (device/port names allocate per-name state in the
+    // player, markers and tempo changes accumulate in the time line): 16..64 of them, rarely thousands
+    if(r.chance(0.08))
+    {
+        int k = r.chance(0.85) ? (int)r.range(14, 64) : (int)r.range(300, 4000);
+        uint8_t kind = (uint8_t)r.pick<int>({ 0x09, 0x09, 0x09, 0x21, 0x06, 0x51, 0x03 });
+        for(int i = 0; i < k; ++i)
+        {
+            t.push_back((uint8_t)r.below(3)); t.push_back(0xFF); t.push_back(kind);
+            if(kind == 0x51) { t.push_back(3); t.push_back((uint8_t)(1 + (i & 7))); t.push_back((uint8_t)(i >> 8)); t.push_back((uint8_t)i); }
+            else { t.push_back(2); t.push_back((uint8_t)(0x21 + (i % 90))); t.push_back((uint8_t)(0x21 + (i / 90))); }
+            if(r.chance(0.5)) { t.push_back(1); t.push_back((uint8_t)(0x90 | r.below(16))); t.push_back((uint8_t)r.range(30, 90)); t.push_back((uint8_t)r.below(128)); }
+        }
+    }
     if(r.chance(0.5)) { t.push_back(0); t.push_back(0xFF); t.push_back(0x2F); t.push_back(0); }
     return t;
 }
